@@ -262,23 +262,16 @@ pub(super) mod verif_export {
     }
     /// full documented contract (controls AND spaces), ASCII strings of length 2
     #[kani::proof]
-    #[kani::unwind(4)]
+    #[kani::unwind(6)]
     fn replace_space_and_control_spec_len2() {
         replace_spec::<2>(true)
     }
     /// control characters only (inputs without spaces), length 2
     #[kani::proof]
-    #[kani::unwind(4)]
+    #[kani::unwind(6)]
     fn replace_control_only_spec_len2() {
         replace_spec::<2>(false)
     }
-    /// control characters only (inputs without spaces), length 3
-    #[kani::proof]
-    #[kani::unwind(5)]
-    fn replace_control_only_spec_len3() {
-        replace_spec::<3>(false)
-    }
-
     /// Diagram name: "In the diagram name, control characters will be replaced by spaces."
     /// `write_replacing_control` writes exactly len bytes, control -> ' ', others verbatim, and
     /// returns whether something was replaced.  ASCII strings of length 3.
